@@ -101,8 +101,9 @@ def run(ctx):
         if '1000000000000000' in t or 'femtoseconds' in t:
             return [(Int(0, 10 ** 15 - 1), st)]
         return None
-    loops_ = [x for x in walk(f) if x.get('kind') == 'WhileStmt']
-    outer = loops_[0] if loops_ else None
+    # the scan over the format string: the loop of format() with the largest body, however it is spelled
+    loops_ = [x for x in walk(f) if x.get('kind') in ('WhileStmt', 'ForStmt', 'DoStmt') and owner_fn(x) is f]
+    outer = max(loops_, key=lambda l: sum(1 for _ in walk(l))) if loops_ else None
     ai = AI(G, obs, partition=part, max_parts=700, inline=inline, loop_once=lambda l: l is outer,
             unroll=lambda fn: qn(fn) == 'cctz::detail::Format64', assume_returns=assume, assume_member=member,
             method_model={'count': m_count}, max_depth=6, auto_unroll=True, value_numbers=True)
@@ -135,7 +136,7 @@ def run(ctx):
                   'a %s through the scratch-buffer cursor can hit offset %s of the %d-byte buffer: stack memory next to it is '
                   'read or overwritten for some instant/format' % (kind, off, extent), construct='budget:%s:%s' % (_fn_of(e), kind),
                   detail=str(off))
-    ctx.minimum('C08-budget', 8)
+    ctx.minimum('C08-budget', 5)
     for (e, ext, idx) in obs.sub.values():
         ctx.check(idx.lo >= 0 and idx.hi < ext, 'C08-table', 'subscript at %s: %s within [0,%d)' % (pos(e), idx, ext), e,
                   'a constant table of extent %d is subscripted with %s' % (ext, idx), construct='table:%s' % _fn_of(e), detail=str(idx))
